@@ -708,6 +708,20 @@ class CallMixin:
                     return f'(({pct}){{&({obj}).e[0], {ins}}})'
                 except LoweringError:
                     return ins
+            if m == 'try_emplace' and len(args) == 1:
+                # try_emplace(key): a value-initialised mapped value is inserted when the entry is absent
+                if self.cond_depth:
+                    raise LoweringError('map::try_emplace in a conditional operand')
+                ins = self.tmp('__ins')
+                vt = bt.args[1]
+                self.pre.append(f'_Bool {ins} = !({obj}).n;')
+                self.pre.append(f'if ({ins}) {{ ({obj}).e[0].second = {self.zero(vt)}; ({obj}).n = 1; }}')
+                rt = self.tyof(n)
+                try:
+                    pct = self.ctype(rt)
+                    return f'(({pct}){{&({obj}).e[0], {ins}}})'
+                except LoweringError:
+                    return ins
             if m == 'at' and len(args) == 1:
                 o = obj
                 self.maythrow_inline(f'!({o}).n', 'std::out_of_range')
